@@ -398,9 +398,11 @@ class LogWarperComponent(OutputWarper):
     labels_arr = labels_arr.flatten()
     finite_mask = np.isfinite(labels_arr)
 
-    norm_diff = (self._labels_max - labels_arr[finite_mask]) / (
-        self._labels_max - self._labels_min
-    )
+    labels_span = self._labels_max - self._labels_min
+    if not labels_span > 0:
+      # A single distinct finite label: nothing to spread out.
+      labels_span = 1.0
+    norm_diff = (self._labels_max - labels_arr[finite_mask]) / labels_span
     labels_arr[finite_mask] = 0.5 - (
         np.log1p(norm_diff * (self.offset - 1)) / np.log(self.offset)
     )
